@@ -61,10 +61,9 @@ Inductive sublist {A} : list A -> list A -> Prop :=
    exact container type, element types, Literal members by value and type,
    Union members, nested dataclass types (property C05).
    `conforms_g false` is the strict relation.  `conforms_g true` additionally admits
-   exactly the three leniencies of the default-engine loader that the C05 proof
+   exactly the two leniencies of the default-engine loader that the C05 proof
    forces (each one a finding, see props/C05.v):
      LNoneAny    a field annotated `None` keeps whatever it was given (identity parser);
-     LUnionNone  a Union WITHOUT a None member passes None through;
      LTupleShort a fixed-arity tuple is cut to the input's length when that length is
                  at least the number of members that cannot be None. *)
 Inductive conforms_g (lax : bool) : ty -> pv -> Prop :=
@@ -99,7 +98,6 @@ Inductive conforms_g (lax : bool) : ty -> pv -> Prop :=
 | CData c fts xs :
     Forall2 (fun ft x => conforms_g lax (fst ft) x) fts xs -> conforms_g lax (TData c fts) (VInst c xs)
 | LNoneAny v : lax = true -> conforms_g lax TNone v
-| LUnionNone ts : lax = true -> conforms_g lax (TUnion ts) VNone
 | LTupleShort ts1 ts2 o xs :
     lax = true -> (required_count (ts1 ++ ts2) <= List.length ts1)%nat ->
     Forall2 (conforms_g lax) ts1 xs -> conforms_g lax (TTuple (ts1 ++ ts2)) (VSeq STuple o xs).
@@ -136,8 +134,8 @@ Inductive wf_ty_g (lax : bool) : ty -> Prop :=
 Notation wf_ty := (wf_ty_g false).
 
 (* ---- the region in which the default-engine loader is strict -----------------
-   no field annotated `None` (findings: N3), every Union has a None member (N1),
-   no fixed-arity tuple has a member that may be None (N2). *)
+   no field annotated `None` on its own (finding F46), no fixed-arity tuple has a member
+   that may be None (finding F45). *)
 Definition is_tnone (t : ty) : bool := match t with TNone => true | _ => false end.
 Fixpoint safe_ty (t : ty) : bool :=
   match t with
@@ -145,33 +143,20 @@ Fixpoint safe_ty (t : ty) : bool :=
   | TSeq _ t' | TVarTuple t' | TOptional t' => safe_ty t'
   | TTuple ts => forallb (fun t' => negb (accepts_none t') && safe_ty t') ts
   | TDict _ kt vt => safe_ty kt && safe_ty vt
-  | TUnion ts => existsb is_tnone ts && forallb (fun t' => is_tnone t' || safe_ty t') ts
+  | TUnion ts => forallb (fun t' => is_tnone t' || safe_ty t') ts
   | TNamedTuple _ fts | TData _ fts => forallb (fun ft => safe_ty (fst ft)) fts
   | TTypedDict _ req opt => forallb (fun kt => safe_ty (snd kt)) req && forallb (fun kt => safe_ty (snd kt)) opt
   | _ => true
   end.
 
 (* ---- well-formed values (what dump needs; independent of annotations) ---- *)
-(* the first occurrence of "+00:00" in an isoformat() text, if any, is its suffix *)
 Definition utc_off : pstr := S "+00:00".
-Fixpoint z_safe (s : pstr) : bool :=
-  match s with
-  | [] => true
-  | c :: r => if starts_with utc_off s then Nat.eqb (List.length r) 5 else z_safe r
-  end.
-
-Definition tok_ok (t : tok) : bool :=
-  match tk_kind t with
-  | KDateTime | KTime => z_safe (tk_str t)
-  | _ => true
-  end.
 
 Fixpoint wfv (v : pv) : bool :=
   match v with
   | VSeq _ _ xs => forallb wfv xs
   | VDict _ _ kvs => forallb (fun kv => wfv (fst kv) && wfv (snd kv)) kvs
   | VEnum _ _ x => enum_value_ok x
-  | VTok t => tok_ok t
   | VNT _ xs => forallb wfv xs
   | VInst c xs => Nat.eqb (List.length (c_fields c)) (List.length xs) && forallb wfv xs
   | _ => true
